@@ -69,7 +69,7 @@ def main(argv=None):
         print(json.dumps(r, indent=1))
         return 1 if r.get('outcome') == 'fails' else 0
     t0 = time.time()
-    from pyvc import oblig
+    from pyvc import oblig, symctx, frame       # everything the workers use is loaded before the pool forks
     # the executable specifications are cross-checked against independent oracles before anything is compared with them
     global SPEC_VALIDATED
     try:
@@ -130,6 +130,16 @@ def main(argv=None):
                 known.append((r, fnd[0])); continue
             if rr.get('outcome') == 'fails':
                 violations.append((r, path, ''))
+            elif r.get('sufficient'):
+                # the obligation asks for more than the property (a sufficient condition): without an input on which the
+                # property itself fails this is not a violation -- search natively, otherwise leave it undecided
+                rr = native_replay(path, search=300); r['replay'] = rr
+                if rr.get('outcome') == 'fails':
+                    r['label'] = (rr.get('failures') or [['native failure']])[0][0]
+                    violations.append((r, path, ''))
+                else:
+                    r['reason'] = 'sufficient condition %r not established and no input found on which the property itself fails' % r.get('label')
+                    undecided.append(r)
             elif r.get('opaque') or r['cls'] == 'I' or not r.get('inputs'):
                 violations.append((r, path, ' no-failing-input-found'))
             else:
